@@ -292,9 +292,9 @@ class Evaluator:
                 return base.items[idx.value]
             if isinstance(base, SeqV):
                 i = self.ev(idx, env)
-                if not isinstance(i, (IntSym, IntC)) or (isinstance(i, IntC) and i.v < 0):
+                if not isinstance(i, (IntSym, IntC)):
                     raise Unsupported('sequence index')
-                it = i.s if isinstance(i, IntSym) else str(i.v)
+                it = i.s if isinstance(i, IntSym) else str(i.v) if i.v >= 0 else f'({base.n} - {-i.v})'   # seq[-k] = seq[len - k]
                 if base.kind == 'points':
                     return Obj('DragDataPoint', {'Mach': Num(f'({base.names[0]} {it})'), 'CD': Num(f'({base.names[1]} {it})')})
                 if base.kind == 'floats':
@@ -829,6 +829,7 @@ SOURCES = {
     'vector': 'py_ballisticcalc/vector/_vector.py',
     'munition': 'py_ballisticcalc/munition.py',
     'trajdata': 'py_ballisticcalc/trajectory_data/_trajectory_data.py',
+    'dragmodel': 'py_ballisticcalc/drag_model.py',
 }
 
 N = Num
@@ -897,6 +898,8 @@ SPECS = [
     ('calc_powder_sens', 'Ammo', 'calc_powder_sens', '(a : Model.Ammo α) (v1 tF1 : α)',
      {'self.mv': q('Velocity', 'a.mv'), 'self.powder_temp': q('Temperature', 'a.powderTemp'),
       'other_velocity': q('Velocity', 'v1'), 'other_temperature': q('Temperature', 'tF1'), 'self.__class__': 'Ammo'}, 'num'),
+    ('sectional_density', None, 'sectional_density', '(w d : α)', {'weight': N('w'), 'diameter': N('d')}, 'num'),
+    ('bc_machC', 'BCPoint', '_machC', '', {}, 'num'),
     ('row', None, 'create_trajectory_row',
      '(time : α) (r v : Model.Vec α) (velocity mach spin look densityFactor drag weight : α) (flag : Model.Flags)',
      {'time': N('time'), 'range_vector': vec('r'), 'velocity_vector': vec('v'), 'velocity': N('velocity'), 'mach': N('mach'),
@@ -1372,6 +1375,85 @@ def emit_danger(ev):
     return '\n'.join(out)
 
 
+def emit_interp(ev):
+    """slices of `linear_interpolation` (one query `xi` over `k` points given by index functions) and of `BCPoint.__init__` /
+    `DragModelMultiBC` (Mach of a velocity point, the per-row scaling)"""
+    f = ev.funcs.get('linear_interpolation')
+    if f is None:
+        raise Unsupported('linear_interpolation not found')
+    fl = [n for n in f.body if isinstance(n, ast.For)]
+    if len(fl) != 1 or not (isinstance(fl[0].target, ast.Name) and fl[0].target.id == 'xi' and ev.dotted(fl[0].iter) == 'x'):
+        raise Unsupported('linear_interpolation: `for xi in x` expected')
+    b = fl[0].body
+    if len(b) != 1 or not isinstance(b[0], ast.If) or len(b[0].orelse) != 1 or not isinstance(b[0].orelse[0], ast.If):
+        raise Unsupported('linear_interpolation: the if / elif / else chain changed shape')
+    env = {'xp': SeqV('floats', ('xp',), 'k'), 'yp': SeqV('floats', ('yp',), 'k'), 'xi': Num('xi')}
+    def appended(stmts, e):   # noqa: E306
+        e = dict(e)
+        e['y'] = Lst([])
+        if ev.block(stmts, e) is not None or len(e['y'].items) != 1:
+            raise Unsupported('linear_interpolation: a branch does not append exactly one value')
+        return num(e['y'].items[0])
+    out = []
+    c1 = ev.cond(b[0].test, env)
+    out.append(f'/-- `linear_interpolation`: query at or below the first point -/\nabbrev interp_low (xp : Nat → α) (xi : α) : Prop :=\n  {c1.s}\n')
+    out.append(f'def interp_low_value (yp : Nat → α) : α :=\n  {appended(b[0].body, env)}\n')
+    el = b[0].orelse[0]
+    c2 = ev.cond(el.test, env)
+    out.append(f'/-- `linear_interpolation`: query at or above the last point -/\nabbrev interp_high (k : Nat) (xp : Nat → α) (xi : α) : Prop :=\n  {c2.s}\n')
+    out.append(f'def interp_high_value (k : Nat) (yp : Nat → α) : α :=\n  {appended(el.body, env)}\n')
+    rest = el.orelse
+    if len(rest) != 3 or not isinstance(rest[1], ast.While) or not isinstance(rest[2], ast.If):
+        raise Unsupported('linear_interpolation: the bisection branch changed shape')
+    e2 = dict(env)
+    if ev.block(rest[:1], e2) is not None:
+        raise Unsupported('linear_interpolation: bracket')
+    it = lambda v: v.s if isinstance(v, IntSym) else str(v.v)   # noqa: E731
+    out.append(f'/-- `linear_interpolation`: the initial bracket -/\ndef interp_init (k : Nat) : Nat × Nat :=\n  ({it(e2["left"])}, {it(e2["right"])})\n')
+    e3 = dict(env)
+    e3['left'], e3['right'] = IntSym('left'), IntSym('right')
+    wl = rest[1]
+    cw = ev.cond(wl.test, e3)
+    out.append(f'abbrev interp_cond (left right : Nat) : Prop :=\n  {cw.s}\n')
+    wb = wl.body
+    if len(wb) != 3 or not isinstance(wb[1], ast.If) or not isinstance(wb[2], ast.If) or wb[1].orelse \
+            or not isinstance(wb[1].body[-1], ast.Break):
+        raise Unsupported('linear_interpolation: the loop body changed shape')
+    if ev.block(wb[:1], e3) is not None:
+        raise Unsupported('linear_interpolation: mid')
+    cs = ev.cond(wb[1].test, e3)
+    out.append(f'/-- the query lies in the segment starting at `mid` -/\nabbrev interp_in_segment (xp : Nat → α) (xi : α) (left right : Nat) : Prop :=\n  {cs.s}\n')
+    out.append(f'def interp_value (xp yp : Nat → α) (xi : α) (left right : Nat) : α :=\n  {appended(wb[1].body[:-1], e3)}\n')
+    cl = ev.cond(wb[2].test, e3)
+    out.append(f'abbrev interp_goes_left (xp : Nat → α) (xi : α) (left right : Nat) : Prop :=\n  {cl.s}\n')
+    ea, eb = dict(e3), dict(e3)
+    if ev.block(wb[2].body, ea) is not None or ev.block(wb[2].orelse, eb) is not None:
+        raise Unsupported('linear_interpolation: moves')
+    out.append(f'def interp_left_move (left right : Nat) : Nat × Nat :=\n  ({it(ea["left"])}, {it(ea["right"])})\n')
+    out.append(f'def interp_right_move (left right : Nat) : Nat × Nat :=\n  ({it(eb["left"])}, {it(eb["right"])})\n')
+    # after the loop: if left == right: y.append(yp[left])
+    want = ast.dump(ast.parse('if left == right:\n    y.append(yp[left])').body[0])
+    if ast.dump(rest[2]) != want:
+        raise Unsupported('linear_interpolation: the statement after the loop changed')
+    # BCPoint: Mach of a velocity point; DragModelMultiBC: per-row scaling
+    g = ev.method('BCPoint', '__init__')
+    vm = [n for n in ast.walk(g) if isinstance(n, ast.Assign) and ev.dotted(n.targets[0]) == 'self.Mach' and 'self.V' in ast.unparse(n.value)] if g else []
+    if len(vm) != 1:
+        raise Unsupported('BCPoint: the Mach of a velocity point was not recognised')
+    v = ev.ev(vm[0].value, {'self.V': Qty('Velocity', 'vRaw'), 'self.__class__': 'BCPoint'})
+    out.append(f'/-- `BCPoint`: Mach number of a point given by velocity (`vRaw` raw m/s) -/\ndef bcpoint_mach_of_v (vRaw : α) : α :=\n  {num(v)}\n')
+    h = ev.funcs.get('DragModelMultiBC')
+    want_bits = ['bc_points = sorted(bc_points, key=lambda p: p.Mach)',
+                 'bc_interp = linear_interpolation([x.Mach for x in drag_table], [x.Mach for x in bc_points], [x.BC / bc for x in bc_points])',
+                 'drag_table = [DragDataPoint(point.Mach, point.CD / bc_interp[i]) for i, point in enumerate(drag_table)]',
+                 'drag_table = make_data_points(drag_table)']
+    hd = [ast.dump(n) for n in h.body] if h else []
+    for wbit in want_bits:
+        if ast.dump(ast.parse(wbit).body[0]) not in hd:
+            raise Unsupported('DragModelMultiBC: missing `' + wbit + '`')
+    return '\n'.join(out)
+
+
 def find_self_assign(ev, cls, meth, attr):
     m = ev.method(cls, meth)
     for n in ast.walk(m) if m else []:
@@ -1456,6 +1538,8 @@ def generate(repo: Path) -> str:
     group(['zero_start', 'zero_distance', 'zero_initial_error', 'zero_initial_count', 'zero_cond', 'zero_error', 'zero_missed',
            'zero_correct', 'zero_fails', 'zero_result'], lambda: emit_zero(ev))
     group(['danger_half', 'danger_begin_danger_hit', 'danger_end_danger_hit'], lambda: emit_danger(ev))
+    group(['interp_low', 'interp_low_value', 'interp_high', 'interp_high_value', 'interp_init', 'interp_cond', 'interp_in_segment',
+           'interp_value', 'interp_goes_left', 'interp_left_move', 'interp_right_move', 'bcpoint_mach_of_v'], lambda: emit_interp(ev))
     out += ['end', '', 'def translated : List String := [' + ', '.join(f'"{n}"' for n in done) + ']',
             'def untranslated : List String := [' + ', '.join(f'"{n}"' for ns, _ in failed for n in ns) + ']', '', 'end BC.Gen.Src', '']
     generate.failed = failed
